@@ -1,6 +1,6 @@
 (* C12 — Receive Maximum flow control.  Statements only; proofs in Conn/IdsQuota.v.
    Nothing else may be added to this file. *)
-From MQ Require Import Base.Prelude Conn.Types Conn.ConnRecord Conn.Step Corr.ConnTrace Conn.IdsQuota Conn.Run Conn.Own Conn.OwnStep Conn.Witness Conn.PairQos Conn.PairQos5 Conn.PairSeq Conn.PairSeq5 Conn.PairConc Conn.PairConc5 Conn.PairBi Conn.PairBi5 Conn.PairManualSeq5.
+From MQ Require Import Base.Prelude Conn.Types Conn.ConnRecord Conn.Step Corr.ConnTrace Conn.IdsQuota Conn.Run Conn.Own Conn.OwnStep Conn.Witness Conn.PairQos Conn.PairQos5 Conn.PairSeq Conn.PairSeq5 Conn.PairConc Conn.PairConc5 Conn.PairBi Conn.PairBi5 Conn.PairManualSeq5 Conn.OwnFrame Conn.PairSeqMixed5.
 
 (* the reported vacancy is M minus the count, saturating at zero: it never wraps or panics, for every
    M and every count *)
@@ -45,6 +45,24 @@ Theorem C12_vacancy_returns_after_sequence : forall gs gr ps cs cr,
   end.
 Proof. exact vacancy_returns_after_sequence. Qed.
 Print Assumptions C12_vacancy_returns_after_sequence.
+
+(* A QoS 0 publication takes no slot (Conn/PairSeqMixed5.v): between exchanges, with both accounts at zero, it is accepted,
+   notified, and the sender's count, the receiver's outstanding set and the vacancy are exactly what they were; and a
+   sequence mixing QoS 0 with acknowledged exchanges ends with both accounts at zero again (pair_inv5) *)
+Theorem C12_qos0_takes_no_slot : forall gs gr cs cr p, pair_inv5 gs gr cs cr -> v5_pub p 0 -> size_ok cs p = true ->
+  exists cs' cr', exchange0_5 gs gr cs cr p = Done cs' cr' [p] /\ c_send_count cs' = 0 /\ c_publish_recv cr' = [] /\ vacancy cs' = c_send_max cs'.
+Proof. exact qos0_takes_no_slot. Qed.
+Print Assumptions C12_qos0_takes_no_slot.
+
+Theorem C12_vacancy_returns_after_mixed_sequence : forall gs gr ps cs cr,
+  pair_inv5 gs gr cs cr -> Forall v5_any ps ->
+  match run_mixed5 gs gr cs cr ps with
+  | Done cs' cr' d => d = ps /\ pair_inv5 gs gr cs' cr'
+  | AppPre => True
+  | Fail => False
+  end.
+Proof. exact run_mixed5_ok. Qed.
+Print Assumptions C12_vacancy_returns_after_mixed_sequence.
 
 (* between two library endpoints the counter IS the number of incomplete exchanges and the quota is never exceeded: in every
    state of every schedule of publications and deliveries (several exchanges in flight, v5.0, automatic responses, intact
